@@ -13,6 +13,32 @@ RULE = ("for accepted ceremonies (authentication over the algorithms; registrati
 KNOWN_U2F = "fido-u2f authenticatorData"
 
 
+def alt_sig_forms(sig):
+    import struct
+    out = []
+    tb = lambda b: struct.pack(">H", len(b)) + b
+    is_der_ecdsa = len(sig) < 150 and sig[:1] == b"\x30"
+    if is_der_ecdsa:
+        try:
+            from cryptography.hazmat.primitives.asymmetric.utils import decode_dss_signature
+            r, s_ = decode_dss_signature(sig)
+            n = 32 if max(r, s_).bit_length() <= 256 else 48 if max(r, s_).bit_length() <= 384 else 66
+            rb, sb = r.to_bytes(n, "big"), s_.to_bytes(n, "big")
+            for h in (0x000B, 0x000C, 0x0004):
+                out.append((f"TPMT_SIGNATURE ecdsa hash={h:#06x}", struct.pack(">HH", 0x0018, h) + tb(rb) + tb(sb)))
+            out.append(("fixed-width r||s", rb + sb))
+        except Exception:
+            pass
+    else:
+        for alg in (0x0014, 0x0016):
+            for h in (0x000B, 0x0004):
+                out.append((f"TPMT_SIGNATURE alg={alg:#06x} hash={h:#06x}", struct.pack(">HH", alg, h) + tb(sig)))
+    out.append(("TPM2B-prefixed", tb(sig)))
+    out.append(("CBOR byte string inside the byte string", cbor2.dumps(sig)))
+    out.append(("hex text as bytes", sig.hex().encode()))
+    return out
+
+
 def flips(b):
     for i in range(len(b) * 8):
         x = bytearray(b)
@@ -128,6 +154,16 @@ def run(tier, seed):
                 parts["sig"] = st["sig"]
             if "certInfo" in st:
                 parts["certInfo"] = st["certInfo"]
+            if "sig" in st:
+                # other encodings of the statement's signature (the TPMT_SIGNATURE structure the TPM format text speaks of, fixed-width r||s, a
+                # one-element CBOR array, ...): IF the implementation accepts one at all, every bit of it must still count
+                for nm, alt in alt_sig_forms(st["sig"]):
+                    ao2 = {"fmt": ao["fmt"], "attStmt": dict(st, sig=alt), "authData": ao["authData"]}
+                    probe = impl.verify_reg(pol, regsim.Registration(reg.cred, reg.cred_id, reg.cdj, cbor2.dumps(ao2)).as_record())
+                    chk.evals += 1
+                    chk.count(f"signature-form {nm}/{fmt}: " + ("accepted" if probe.startswith("OK") else "refused"))
+                    if probe.startswith("OK") and isinstance(alt, bytes):
+                        parts[f"sig[{nm}]"] = alt
             if "response" in st:
                 h, p, sg = st["response"].split(b".")
                 parts["jws-signing-input"] = h + b"." + p
@@ -142,6 +178,8 @@ def run(tier, seed):
                         ao2["authData"] = v
                     elif part in ("sig", "certInfo"):
                         ao2["attStmt"][part] = v
+                    elif part.startswith("sig["):
+                        ao2["attStmt"]["sig"] = v
                     elif part == "jws-signing-input":
                         ao2["attStmt"]["response"] = v + b"." + sg
                     else:
